@@ -45,7 +45,8 @@ def gen_configs(tier, rng):
                          # the batch request is made when the crop is created, or with the sow call
                          "where": rng.choice(["ctor", "ctor", "sow"]),
                          # a list of cases over ONE argument may name it by a bare string and list bare values
-                         "bare": kind == "cases" and rng.random() < 0.35})
+                         "bare": kind == "cases" and rng.random() < 0.35,
+                         "resow_after_delete": rng.random() < 0.2 and not (how == "nb" and v is not None and v > n)})
     # invalid requests (rejected by the code, error branch of the model)
     for how, v in [("bs", 0), ("bs", -2), ("nb", 0), ("nb", -1)]:
         cfgs.append({"n": 5, "how": how, "v": v, "kind": "grid", "shuffle": False, "extras": "none", "dims_seed": 1})
@@ -175,6 +176,24 @@ def observe(cfg, tmp):
         obs["reload_same_args_missing"] = list(crop3.missing_results())
     except Exception as e:  # noqa
         obs["reload_same_args_missing"] = f"{type(e).__name__}"
+    # the same object used again after its crop was deleted (what a reap with clean-up leaves behind): the request
+    # made when the object was created still stands, the second sow lays out the same batches
+    if cfg.get("resow_after_delete") and not at_sow:
+        first = C.read_batches(crop, index_of)
+        crop.delete_all()
+        try:
+            if cases is not None and not combos and cfg.get("bare"):
+                crop.sow_cases("alpha", [c["alpha"] for c in cases], constants=sow_consts, verbosity=0, **skw)
+            elif cases is not None and not combos:
+                crop.sow_cases(("k", "j"), [(c["k"], c["j"]) for c in cases], constants=sow_consts, verbosity=0, **skw)
+            elif cases is not None and cfg.get("entry") == "sow_cases":
+                crop.sow_cases(("k", "j"), [(c["k"], c["j"]) for c in cases], combos=combos, constants=sow_consts,
+                               verbosity=0, **skw)
+            else:
+                crop.sow_combos(combos, cases=cases, constants=sow_consts, shuffle=cfg["shuffle"], verbosity=0, **skw)
+            obs["resown_batches"] = [first, C.read_batches(crop, index_of)]
+        except Exception as e:  # noqa
+            obs["resown_batches"] = [first, f"{type(e).__name__}: {str(e)[:120]}"]
     return obs
 
 
@@ -220,6 +239,11 @@ def oracle(cfg, obs):
         bad.append(("reload-with-same-arguments", f"a crop re-created with the original arguments reports "
                     f"{obs['reload_same_args_numbers']} / missing {obs.get('reload_same_args_missing')}, the sown "
                     f"crop reported {obs['numbers']} with {B} batch files"))
+    if "resown_batches" in obs and obs["resown_batches"][0] != obs["resown_batches"][1]:
+        a, b_ = obs["resown_batches"]
+        bad.append(("resow-after-delete-differs", f"the same object sown again after delete_all(): first "
+                    f"{[len(x) for _, x in a]} settings per batch, then "
+                    f"{[len(x) for _, x in b_] if isinstance(b_, list) else b_}"))
     if obs["num_sown"] != B or obs["reload_num_sown"] != B:
         bad.append(("num-sown", "num_sown_batches differs from the number of batch files"))
     return bad
